@@ -986,3 +986,368 @@ func c01R17(ic *IC, r *Report) {
 		r.Errorf("R01.17: %d post-order cases of for kinds with an init clause found in cfg (4 expected)", n)
 	}
 }
+
+// R01.19: a generator that produces a value into its node's frame slot also does so in the
+// variants installed when the value is used as a branch condition (fnext != nil): the
+// consumer of a condition nested in && / || reads the slot afterwards (a[i] && c evaluates to
+// the stale content of the slot of a[i]). In every generator whose non-branching closures all
+// store into the node's own slot (data[i] with i from n.findex, or dest(f) from genValue(n)),
+// each branching closure (one returning both successors) stores into it too.
+func c01R19(ic *IC, r *Report) {
+	info := ic.Info
+	findexFld := ic.field("node", "findex")
+	n := 0
+	for _, name := range sortedKeys(ic.F) {
+		fi := ic.F[name]
+		if fi.Decl.Body == nil || fi.Obj == nil || fi.Decl.Recv != nil {
+			continue
+		}
+		sig := fi.Obj.Type().(*types.Signature)
+		if sig.Params().Len() != 1 || sig.Results().Len() != 0 || !isNamedPtr(sig.Params().At(0).Type(), "node") {
+			continue
+		}
+		var nparam types.Object
+		if len(fi.Decl.Type.Params.List[0].Names) > 0 {
+			nparam = info.ObjectOf(fi.Decl.Type.Params.List[0].Names[0])
+		}
+		ownIdx := map[types.Object]bool{}  // i := n.findex
+		ownDest := map[types.Object]bool{} // dest := genValue(n)
+		succ := map[types.Object]string{}  // tnext := getExec(n.tnext), fnext := getExec(n.fnext)
+		ast.Inspect(fi.Decl.Body, func(m ast.Node) bool {
+			as, ok := m.(*ast.AssignStmt)
+			if !ok || len(as.Lhs) != len(as.Rhs) {
+				return true
+			}
+			for i, rhs := range as.Rhs {
+				id, ok := as.Lhs[i].(*ast.Ident)
+				if !ok {
+					continue
+				}
+				if se, ok := unparen(rhs).(*ast.SelectorExpr); ok && selField(info, se) == findexFld {
+					if x := identOf(se.X); x != nil && info.ObjectOf(x) == nparam {
+						ownIdx[info.ObjectOf(id)] = true
+					}
+				}
+				if c, ok := unparen(rhs).(*ast.CallExpr); ok && len(c.Args) >= 1 {
+					if f, ok := calleeOf(info, c).(*types.Func); ok && f.Pkg() == ic.Pk.Types {
+						if a := identOf(c.Args[0]); a != nil && info.ObjectOf(a) == nparam && strings.HasPrefix(f.Name(), "genValue") {
+							ownDest[info.ObjectOf(id)] = true
+						}
+						if f.Name() == "getExec" {
+							if se, ok := unparen(c.Args[0]).(*ast.SelectorExpr); ok && (se.Sel.Name == "tnext" || se.Sel.Name == "fnext") {
+								if x := identOf(se.X); x != nil && info.ObjectOf(x) == nparam {
+									succ[info.ObjectOf(id)] = se.Sel.Name
+								}
+							}
+						}
+					}
+				}
+			}
+			return true
+		})
+		if len(ownIdx) == 0 && len(ownDest) == 0 {
+			continue
+		}
+		storesOwn := func(fl *ast.FuncLit) bool {
+			found := false
+			ast.Inspect(fl.Body, func(m ast.Node) bool {
+				switch x := m.(type) {
+				case *ast.AssignStmt:
+					for _, l := range x.Lhs {
+						if ix, ok := unparen(l).(*ast.IndexExpr); ok {
+							if iid := identOf(ix.Index); iid != nil && ownIdx[info.ObjectOf(iid)] {
+								found = true
+							}
+						}
+					}
+				case *ast.CallExpr:
+					if se, ok := unparen(x.Fun).(*ast.SelectorExpr); ok && strings.HasPrefix(se.Sel.Name, "Set") {
+						if inner, ok := unparen(se.X).(*ast.CallExpr); ok {
+							if id := identOf(inner.Fun); id != nil && ownDest[info.ObjectOf(id)] {
+								found = true
+							}
+						}
+						if ix, ok := unparen(se.X).(*ast.IndexExpr); ok {
+							if iid := identOf(ix.Index); iid != nil && ownIdx[info.ObjectOf(iid)] {
+								found = true
+							}
+						}
+					}
+				}
+				return !found
+			})
+			return found
+		}
+		branching := func(fl *ast.FuncLit) bool {
+			seen := map[string]bool{}
+			ast.Inspect(fl.Body, func(m ast.Node) bool {
+				if rs, ok := m.(*ast.ReturnStmt); ok && len(rs.Results) == 1 {
+					if id := identOf(rs.Results[0]); id != nil && succ[info.ObjectOf(id)] != "" {
+						seen[succ[info.ObjectOf(id)]] = true
+					}
+				}
+				return true
+			})
+			return seen["tnext"] && seen["fnext"]
+		}
+		var plain, br []*ast.FuncLit
+		for _, fl := range (&c02ctx{ic: ic}).closuresOf(fi) {
+			if branching(fl) {
+				br = append(br, fl)
+			} else {
+				plain = append(plain, fl)
+			}
+		}
+		if len(br) == 0 || len(plain) == 0 {
+			continue
+		}
+		allPlainStore := true
+		for _, fl := range plain {
+			if !storesOwn(fl) {
+				allPlainStore = false
+			}
+		}
+		if !allPlainStore {
+			continue // not a pure value producer (some variants legitimately store nothing)
+		}
+		for k, fl := range br {
+			n++
+			r.Check(storesOwn(fl), "R01.19", fmt.Sprintf("%s/branching-closure#%d/stores-its-value", name, k+1), ic.pos(fl.Pos()), "the branching variant stores the value before choosing the successor",
+				"generator "+name+" stores its value into the node's frame slot in every non-branching variant, but this variant, installed when the value is a branch condition, only tests it: a condition nested in && or || is read back from the slot by its consumer, so a[i] && c (or m[k] || c, p.ok && c ...) evaluates to the slot's previous content")
+		}
+	}
+	if n < 5 {
+		r.Errorf("R01.19: only %d branching variants of value-producing generators found", n)
+	}
+}
+
+// R01.20: a composite value is created each time its expression is evaluated. No run-time
+// closure stores into a frame slot (X.Set(v), data[i] = v) a reflect.Value that the generator
+// built once, outside the closure, with reflect.MakeSlice / MakeMap / MakeChan (directly, or by
+// calling at generation time a local function literal that does): every evaluation of
+// []int{1, 2, 3} would hand out the same backing array.
+func c01R20(ic *IC, r *Report) {
+	info := ic.Info
+	makers := []string{"reflect.MakeSlice", "reflect.MakeMap", "reflect.MakeMapWithSize", "reflect.MakeChan"}
+	n, nGen := 0, 0
+	for _, name := range sortedKeys(ic.F) {
+		fi := ic.F[name]
+		if fi.Decl.Body == nil || fi.Obj == nil || fi.Decl.Recv != nil {
+			continue
+		}
+		sig := fi.Obj.Type().(*types.Signature)
+		if sig.Params().Len() != 1 || sig.Results().Len() != 0 || !isNamedPtr(sig.Params().At(0).Type(), "node") {
+			continue
+		}
+		nGen++
+		closures := (&c02ctx{ic: ic}).closuresOf(fi)
+		inClosure := func(p token.Pos) bool {
+			for _, fl := range closures {
+				if fl.Pos() <= p && p <= fl.End() {
+					return true
+				}
+			}
+			return false
+		}
+		// local function literals of the generator that build an aggregate
+		builders := map[types.Object]bool{}
+		ast.Inspect(fi.Decl.Body, func(m ast.Node) bool {
+			as, ok := m.(*ast.AssignStmt)
+			if !ok || len(as.Lhs) != len(as.Rhs) {
+				return true
+			}
+			for i, rhs := range as.Rhs {
+				if fl, ok := unparen(rhs).(*ast.FuncLit); ok && len(callsIn(info, fl.Body, true, makers...)) > 0 {
+					if id, ok := as.Lhs[i].(*ast.Ident); ok {
+						builders[info.ObjectOf(id)] = true
+					}
+				}
+			}
+			return true
+		})
+		// generation-time variables holding an aggregate built once
+		once := map[types.Object]token.Pos{}
+		ast.Inspect(fi.Decl.Body, func(m ast.Node) bool {
+			as, ok := m.(*ast.AssignStmt)
+			if !ok || len(as.Lhs) != len(as.Rhs) || inClosure(as.Pos()) {
+				return true
+			}
+			for i, rhs := range as.Rhs {
+				c, ok := unparen(rhs).(*ast.CallExpr)
+				if !ok {
+					continue
+				}
+				built := isCallTo(info, c, makers...)
+				if id := identOf(c.Fun); id != nil && builders[info.ObjectOf(id)] {
+					built = true
+				}
+				if built {
+					if id, ok := as.Lhs[i].(*ast.Ident); ok {
+						once[info.ObjectOf(id)] = as.Pos()
+					}
+				}
+			}
+			return true
+		})
+		if len(once) == 0 {
+			continue
+		}
+		for _, fl := range closures {
+			ast.Inspect(fl.Body, func(m ast.Node) bool {
+				var stored *ast.Ident
+				switch x := m.(type) {
+				case *ast.CallExpr:
+					if se, ok := unparen(x.Fun).(*ast.SelectorExpr); ok && se.Sel.Name == "Set" && len(x.Args) == 1 {
+						stored = identOf(x.Args[0])
+					}
+				case *ast.AssignStmt:
+					for i, l := range x.Lhs {
+						if _, ok := unparen(l).(*ast.IndexExpr); ok && i < len(x.Rhs) {
+							if id := identOf(x.Rhs[i]); id != nil {
+								stored = id
+							}
+						}
+					}
+				}
+				if stored != nil {
+					if at, ok := once[info.ObjectOf(stored)]; ok {
+						n++
+						r.Fail("R01.20", fmt.Sprintf("%s/aggregate-built-once:%s", name, stored.Name), ic.pos(stored.Pos()),
+							"generator "+name+" builds "+stored.Name+" once, when the closure is generated ("+ic.pos(at)+"), and its run-time closure stores that same value at every execution: every evaluation of the expression shares one backing array, map or channel (s := []int{1, 2, 3}; s[0] = 9 inside a loop or a function called twice changes what the literal yields the next time)")
+					}
+				}
+				return true
+			})
+		}
+	}
+	if n == 0 {
+		r.Pass("R01.20", "generators/aggregates-created-at-each-evaluation", "", fmt.Sprintf("%d generators: no run-time closure stores a slice, map or channel built at generation time", nGen))
+	}
+}
+
+// R01.2 (declaration clause): `var x T` without a value creates a new variable each time it is
+// executed (closures and pointers taken in different iterations of a loop designate different
+// variables). In every run-time closure of the generator cfg installs for a value
+// specification without value (n.gen = <g> in the valueSpec case), each frame slot is
+// assigned reflect.New(T).Elem(); a helper handed the frame must do so on every path, and no
+// slot is cleared in place (SetZero, Set(reflect.Zero(..))).
+func c01R2decl(ic *IC, r *Report) {
+	info := ic.Info
+	cfgFn := ic.fn(r, "Interpreter.cfg")
+	if cfgFn == nil {
+		return
+	}
+	genFld := ic.field("node", "gen")
+	dataFld := ic.field("frame", "data")
+	var gens []*types.Func
+	ast.Inspect(cfgFn.Decl.Body, func(m ast.Node) bool {
+		cc, ok := m.(*ast.CaseClause)
+		if !ok || len(cc.List) != 1 {
+			return true
+		}
+		if id := identOf(cc.List[0]); id == nil || id.Name != "valueSpec" {
+			return true
+		}
+		for _, st := range cc.Body {
+			if as, ok := st.(*ast.AssignStmt); ok && len(as.Lhs) == 1 && len(as.Rhs) == 1 && selField(info, as.Lhs[0]) == genFld {
+				if id := identOf(as.Rhs[0]); id != nil {
+					if f, ok := info.Uses[id].(*types.Func); ok {
+						gens = append(gens, f)
+					}
+				}
+			}
+		}
+		return true
+	})
+	if len(gens) == 0 {
+		r.Errorf("R01.2: the generator installed for a value specification (n.gen = ... in the valueSpec case of cfg) was not found")
+		return
+	}
+	isFreshNew := func(e ast.Expr) bool {
+		c, ok := unparen(e).(*ast.CallExpr)
+		if !ok || !isCallTo(info, c, "reflect.Value.Elem") {
+			return false
+		}
+		se, ok := unparen(c.Fun).(*ast.SelectorExpr)
+		if !ok {
+			return false
+		}
+		inner, ok := unparen(se.X).(*ast.CallExpr)
+		return ok && isCallTo(info, inner, "reflect.New")
+	}
+	// problems of a body that receives the frame: in-place clears, non-fresh stores
+	var problems func(body ast.Node, depth int) []string
+	problems = func(body ast.Node, depth int) []string {
+		var out []string
+		ast.Inspect(body, func(m ast.Node) bool {
+			switch x := m.(type) {
+			case *ast.AssignStmt:
+				for i, l := range x.Lhs {
+					ix, ok := unparen(l).(*ast.IndexExpr)
+					if !ok || selField(info, ix.X) != dataFld || i >= len(x.Rhs) {
+						continue
+					}
+					if !isFreshNew(x.Rhs[i]) {
+						out = append(out, types.ExprString(l)+" = "+types.ExprString(x.Rhs[i])+" at "+ic.pos(x.Pos()))
+					}
+				}
+			case *ast.CallExpr:
+				if isCallTo(info, x, "reflect.Value.SetZero") {
+					out = append(out, "in-place "+types.ExprString(x)+" at "+ic.pos(x.Pos()))
+				}
+				if isCallTo(info, x, "reflect.Value.Set") && len(x.Args) == 1 {
+					if a, ok := unparen(x.Args[0]).(*ast.CallExpr); ok && isCallTo(info, a, "reflect.Zero") {
+						out = append(out, "in-place "+types.ExprString(x)+" at "+ic.pos(x.Pos()))
+					}
+				}
+				if f, ok := calleeOf(info, x).(*types.Func); ok && f.Pkg() == ic.Pk.Types && depth < 2 {
+					passesFrame := false
+					for _, a := range x.Args {
+						if t := info.TypeOf(a); t != nil && isNamedPtr(t, "frame") {
+							passesFrame = true
+						}
+					}
+					if h := ic.G.Funcs[f]; passesFrame && h != nil && h.Decl.Body != nil {
+						out = append(out, problems(h.Decl.Body, depth+1)...)
+						// the helper assigns a fresh value on every path
+						fg := buildFlow(h.Decl.Body, info)
+						if exitWithoutFromEntry(fg, func(n ast.Node) bool {
+							ok := false
+							ast.Inspect(n, func(k ast.Node) bool {
+								if as, isAs := k.(*ast.AssignStmt); isAs {
+									for i, l := range as.Lhs {
+										if ix, isIx := unparen(l).(*ast.IndexExpr); isIx && selField(info, ix.X) == dataFld && i < len(as.Rhs) && isFreshNew(as.Rhs[i]) {
+											ok = true
+										}
+									}
+								}
+								return true
+							})
+							return ok
+						}) {
+							out = append(out, "helper "+f.Name()+" can return without assigning a new reflect.New(T).Elem() to the slot")
+						}
+					}
+				}
+			}
+			return true
+		})
+		return out
+	}
+	n := 0
+	for _, g := range gens {
+		fi := ic.G.Funcs[g]
+		if fi == nil || fi.Decl.Body == nil {
+			continue
+		}
+		for k, fl := range (&c02ctx{ic: ic}).closuresOf(fi) {
+			n++
+			bad := dedupStr(problems(fl.Body, 0))
+			r.Check(len(bad) == 0, "R01.2", fmt.Sprintf("%s/declaration-closure#%d/new-variable-each-time", funcName(fi.Decl), k+1), ic.pos(fl.Pos()), "every declared variable gets a new reflect.New(T).Elem()",
+				"the closure executing `var x T` does not always create a new variable ("+strings.Join(bad, "; ")+"): a variable cleared in place is the same variable at every execution, so closures and pointers taken in different iterations of a loop share it (for ... { var x int; fs = append(fs, func() int { x++; return x }) })")
+		}
+	}
+	if n == 0 {
+		r.Errorf("R01.2: no run-time closure found in the generator of value specifications")
+	}
+}
